@@ -158,4 +158,18 @@ theorem foldl_inv2 (always : Bool) (g : Graph) (plan : Name → Plan) (defs : Na
     · exact hnd'.1 (h ▸ hk)
     · exact hdisj k (List.mem_cons_of_mem _ hk) h
 
+theorem firstPass_keeps_ign (ts : List Name) (s : St) (T : Name) (h : (s.rcd T).ign = true) :
+    ((ts.foldl firstPassOne s).rcd T).ign = true := by
+  induction ts generalizing s with
+  | nil => exact h
+  | cons k ks ih =>
+    simp only [List.foldl_cons]
+    apply ih
+    unfold firstPassOne
+    split
+    · exact h
+    · by_cases hk : T = k
+      · subst hk; rename_i hn; exact absurd h hn
+      · rw [peek_frame s k T hk]; exact h
+
 end DoitModel.Cmds
